@@ -807,6 +807,8 @@ def stream_init_pickle(w, cfg):
                                                                  eq_map(w, o['flows'], exp_flows)))
     w.ensure('constructor: T and P as given', w.And(w.eq(o['T'], T), w.eq(o['P'], P)))
     w.ensure('constructor: price as given', w.eq(s.price, price))
+    w.ensure('constructor: flows read by (phase, ID) are the flows given', by_name_ok(w, s))
+    w.ensure('constructor: equilibrium methods work on the stream\'s own flows, T and P', eq_own(w, s), foreign=eq_foreign(s))
     w.ensure('constructor: characterization factors as given',
              w.And(set(s.characterization_factors) == set(exp_cf), eq_map(w, dict(s.characterization_factors), exp_cf)),
              got=sorted(s.characterization_factors))
@@ -831,6 +833,10 @@ def stream_init_pickle(w, cfg):
         w.ensure('pickle: no container shared with the original',
                  w.And(shared_roles(r, s) == [], r.characterization_factors is not s.characterization_factors))
         w.ensure('pickle: phase views consistent', views_consistent(w, r))
+        w.ensure('pickle: flows read by (phase, ID) are the flows of the unpickled stream', by_name_ok(w, r))
+        w.ensure('pickle: equilibrium methods of the unpickled stream work on its own flows, T and P', eq_own(w, r), foreign=eq_foreign(r))
+        w.ensure('pickle: equilibrium methods of either stream write to no container of the other',
+                 eq_shared_roles(r, s) + eq_shared_roles(s, r) == [], shared=eq_shared_roles(r, s) + eq_shared_roles(s, r))
     r = rs[0]
     havoc(w, r, 'wr')
     w.ensure('pickle: later write to the unpickled stream is not visible in the original', same_obs(w, o, obs(s)))
@@ -1127,6 +1133,8 @@ def seq_configs(tier):
         for s in seqs:
             if _seq_valid(s):
                 out.append({'name': f'{fam};' + ','.join(s), 'family': fam, 'seq': list(s)})
+                if multi and (tier == 'thorough' or len(s) <= 2) and any(op[0] in 'LUPF' for op in s):
+                    out.append({'name': f'{fam};' + ','.join(s) + ';eq=loaded', 'family': fam, 'seq': list(s), 'eq': 'loaded'})
     return out
 
 
@@ -1140,6 +1148,8 @@ def sequences(w, cfg):
     parts = ['flow', 'TP'] if multi else ['flow', 'phase', 'TP']
     kinds = ['c:gl', 'c:gl'] if multi else ['l', 'g']
     streams = [_mk(w, f's{i}', k, 'A', 'pos') for i, k in enumerate(kinds)]
+    if cfg.get('eq') == 'loaded':       # the equilibrium objects were handed out (s.vle) before the history starts
+        for s in streams: load_eq(s)
 
     def fresh(s):
         o = obs(s)
@@ -1154,11 +1164,17 @@ def sequences(w, cfg):
                 w.ensure(f'step {step}: stream {i}: {part} as modelled', _part_eq(w, _part(o, part, multi), m.cell(part).v))
             if multi:
                 w.ensure(f'step {step}: stream {i}: phase views consistent', views_consistent(w, s))
+                w.ensure(f'step {step}: stream {i}: equilibrium methods work on its own flows, T and P', eq_own(w, s), foreign=eq_foreign(s))
+            w.ensure(f'step {step}: stream {i}: flows read by (phase, ID) are its flows', by_name_ok(w, s))
         for i, j in itertools.combinations(range(len(streams)), 2):
             for part in parts:
                 w.ensure(f'step {step}: streams {i},{j}: {part} shared iff linked',
                          _part_shared(streams[i], streams[j], part) == (model[i].cell(part) is model[j].cell(part)),
                          shared=_part_shared(streams[i], streams[j], part))
+            if multi and not any(model[i].cell(part) is model[j].cell(part) for part in parts):
+                sh = eq_shared_roles(streams[i], streams[j]) + eq_shared_roles(streams[j], streams[i])
+                w.ensure(f'step {step}: streams {i},{j}: nothing linked: equilibrium methods of either write to no container of the other',
+                         sh == [], shared=sh)
 
     for step, op in enumerate(cfg['seq'], 1):
         k = op[0]
@@ -1201,3 +1217,195 @@ def sequences(w, cfg):
                 streams.append(s.copy()); model.append(_M(_Rec(_Cell(dict(m.rec.flow.v)), _Cell(m.rec.phase.v)), _Cell(dict(m.TP.v))))
         check(step)
     w.canary('canary: streams 0 and 1 end with T differing by 1', w.eq(obs(streams[0])['T'], obs(streams[1])['T'] + 1))
+
+
+# =========================================================================== histories ending in a real equilibrium call (bounded)
+# "No later change to either is visible in the other", "linking shares exactly the selected parts", "unlinking ends all
+# sharing": the later change here is the one a stream's own equilibrium method makes (s.vle(...) with the real solver).
+# The sharing model is the one of C13/sequences; the expected effect of the call is what the same call does to a fresh,
+# unrelated stream holding the same flows, T and P.
+
+WE = ('Water', 'Ethanol')
+W.preload([WE])
+
+EQ_SPECS = {'VP': dict(V=0.5, P=101325.), 'TP': dict(T=358., P=101325.), 'VT': dict(V=0.3, T=350.)}
+EQ_START = [  # (T, P, {(phase, ID): flow}) of streams 0 and 1
+    (300., 101325., {('l', 'Water'): 10., ('l', 'Ethanol'): 10.}),
+    (320., 2e5, {('l', 'Water'): 4., ('l', 'Ethanol'): 12., ('g', 'Water'): 1.}),
+]
+EQ_NOTES = ('Water/Ethanol, real property package and real VLE solver; two multi-phase (g,l) streams with fixed flows/T/P '
+            '(20 mol at 300 K, 1 atm; 17 mol at 320 K, 2 bar); histories of 1-2 (thorough: 1-3) operations out of link_with (all / flow / TP, '
+            'both directions), unlink, proxy, flow_proxy, copy, pickle round trip, copy_like, handing out s.vle, followed by one real '
+            'vle call (V=0.5,P | T,P | V,T) on each stream in turn, optionally followed by unlink and a second call; '
+            'same result = every flow within 1e-4 of the total flow, T within 1e-3 K, P within 1e-6 relative')
+
+
+def _eq_alphabet():
+    return ['L01:all', 'L01:flow', 'L01:TP', 'L10:all', 'L10:TP', 'U0', 'U1', 'U2', 'P0', 'F0', 'C0', 'R0', 'K01', 'K10', 'V0', 'V1', 'V2',
+            'L21:all', 'L12:flow', 'K02', 'K20']
+
+
+def _eq_valid(seq):
+    have2 = False
+    aliased = set()
+    for op in seq:
+        k = op[0]
+        idx = [int(c) for c in op[1:3] if c.isdigit()]
+        if 2 in idx and not have2 and k not in 'PFCR': return False
+        if k in 'PFCR':
+            if have2: return False
+            have2 = True
+            if k == 'P': aliased |= {0, 2}
+        elif k == 'L':
+            if idx[0] in aliased: return False
+        elif k == 'U':
+            if idx[0] in aliased: aliased.clear()
+    return True
+
+
+def eq_seq_configs(tier):
+    alpha = _eq_alphabet()
+    if tier == 'thorough':
+        seqs = [(a,) for a in alpha] + list(itertools.product(alpha, repeat=2))
+        core = ['L01:all', 'L10:TP', 'P0', 'F0', 'U0', 'U1', 'U2', 'V0', 'K01']
+        seqs += [s for s in itertools.product(core, repeat=3) if s[0][0] in 'LPFV']
+        specs = list(EQ_SPECS)
+    else:
+        seqs = [(a,) for a in alpha]
+        sharing = ['L01:all', 'L01:flow', 'L10:TP', 'P0', 'F0']
+        seqs += list(itertools.product(sharing, ['U0', 'U1', 'U2']))            # share, then unlink
+        seqs += list(itertools.product(['V0', 'V1'], ['L01:all', 'L01:TP', 'P0', 'F0']))   # equilibrium object handed out before
+        seqs += [('L01:all', 'K10'), ('C0', 'L02:all')]
+        specs = ['VP']
+    out = []
+    for s in seqs:
+        if not _eq_valid(s): continue
+        if not any(op[0] in 'LPFCRK' for op in s): continue                # two unrelated streams only
+        n = 3 if any(op[0] in 'PFCR' for op in s) else 2
+        for spec in specs:
+            if spec != 'VP' and len(s) == 3: continue
+            for i in range(n):
+                out.append({'name': ','.join(s) + f';E{i}:{spec}', 'seq': list(s), 'on': i, 'spec': spec, 'then': None})
+                # ... then one of the streams unlinks and the next one is flashed
+                if len(s) == 1 and spec == 'VP' and (tier == 'thorough' or s[0] in ('L01:all', 'L10:TP', 'P0', 'F0')):
+                    for u in range(n):
+                        if tier != 'thorough' and u != i: continue
+                        j = (u + 1) % n
+                        out.append({'name': ','.join(s) + f';E{i}:{spec};U{u};E{j}:TP', 'seq': list(s), 'on': i, 'spec': spec, 'then': [u, j]})
+    return out
+
+
+def _eq_fresh(th, o):
+    """A fresh, unrelated stream with the observed flows, T and P."""
+    ID = dict(zip(th.chemicals.CASs, th.chemicals.IDs))
+    r = tmo.MultiStream(None, phases=o['phases'], T=o['T'], P=o['P'], thermo=th)
+    for (ph, cas), v in o['flows'].items(): r.imol[ph, ID[cas]] = v
+    return r
+
+
+def _eq_close(a, b, F):
+    if isinstance(a, tuple): return a == b
+    if set(a) == {'T', 'P'}:
+        return bool(abs(a['T'] - b['T']) <= 1e-3 and abs(a['P'] - b['P']) <= 1e-6 * max(abs(a['P']), abs(b['P'])))
+    return all(abs(a.get(k, 0.) - b.get(k, 0.)) <= 1e-4 * F for k in set(a) | set(b))
+
+
+@group('C13/equilibrium_after_history', configs=eq_seq_configs, mode='B', notes=EQ_NOTES,
+       functions=['thermosteam._stream:Stream.link_with', 'thermosteam._stream:Stream.unlink', 'thermosteam._stream:Stream.proxy',
+                  'thermosteam._stream:Stream.flow_proxy', 'thermosteam._stream:Stream.copy', 'thermosteam._stream:Stream.__reduce__',
+                  'thermosteam._multi_stream:MultiStream.copy_like', 'thermosteam._multi_stream:MultiStream.reset_cache',
+                  'thermosteam._multi_stream:MultiStream.vle', 'thermosteam.utils.cache:Cache.retrieve'])
+def equilibrium_after_history(w, cfg):
+    W.reset_caches()
+    th = W.thermo(WE)
+    parts = ['flow', 'TP']
+    streams = []
+    for T, P, flows in EQ_START:
+        s = tmo.MultiStream(None, phases=('g', 'l'), T=T, P=P, thermo=th)
+        for (ph, ID), v in flows.items(): s.imol[ph, ID] = v
+        streams.append(s)
+    Fmax = 20.
+
+    def fresh(s):
+        o = obs(s)
+        return _M(_Rec(_Cell(_part(o, 'flow', True)), _Cell(o['phases'])), _Cell(_part(o, 'TP', True)))
+
+    model = [fresh(s) for s in streams]
+
+    def check(step):
+        for i, (s, m) in enumerate(zip(streams, model)):
+            o = obs(s)
+            for part in parts:
+                w.ensure(f'{step}: stream {i}: {part} as modelled (own changes kept, changes of unlinked streams not visible, of linked ones visible)',
+                         _eq_close(_part(o, part, True), m.cell(part).v, Fmax), got=_part(o, part, True) if part == 'TP' else sorted((str(k), round(v, 6)) for k, v in _part(o, part, True).items()),
+                         want=m.cell(part).v if part == 'TP' else sorted((str(k), round(v, 6)) for k, v in m.cell(part).v.items()))
+            w.ensure(f'{step}: stream {i}: phase views consistent', views_consistent(w, s))
+            w.ensure(f'{step}: stream {i}: flows read by (phase, ID) are its flows', by_name_ok(w, s))
+        for i, j in itertools.combinations(range(len(streams)), 2):
+            for part in parts:
+                w.ensure(f'{step}: streams {i},{j}: {part} shared iff linked',
+                         _part_shared(streams[i], streams[j], part) == (model[i].cell(part) is model[j].cell(part)))
+
+    def flash(step, i, spec):
+        s, m = streams[i], model[i]
+        ref = _eq_fresh(th, obs(s))
+        try:
+            ref.vle(**EQ_SPECS[spec])
+        except Exception as e:      # the call itself is not the subject here (C02-C04)
+            w.note(**{f'{step}_outcome': type(e).__name__})
+            return False
+        try:
+            s.vle(**EQ_SPECS[spec])
+        except Exception as e:
+            w.ensure(f'{step}: the call returns as it does on a fresh stream with the same flows, T and P', False, outcome=repr(e)[:200])
+            return False
+        o = obs(ref)
+        m.rec.flow.v = _part(o, 'flow', True); m.TP.v = _part(o, 'TP', True)
+        return True
+
+    for step, op in enumerate(cfg['seq'], 1):
+        k = op[0]
+        idx = [int(c) for c in op[1:3] if c.isdigit()]
+        if k == 'L':
+            a, b = idx
+            flags = LINK_CHOICES[op.split(':')[1]]
+            streams[a].link_with(streams[b], *flags)
+            ma, mb = model[a], model[b]
+            if flags[0]: ma.rec.flow = mb.rec.flow
+            if flags[2]: ma.TP = mb.TP
+        elif k == 'U':
+            a, = idx
+            streams[a].unlink()
+            m = model[a]
+            model[a] = _M(_Rec(_Cell(dict(m.rec.flow.v)), _Cell(m.rec.phase.v)), _Cell(dict(m.TP.v)))
+        elif k == 'K':
+            a, b = idx
+            streams[a].copy_like(streams[b])
+            ma, mb = model[a], model[b]
+            ma.rec.flow.v = dict(mb.rec.flow.v); ma.rec.phase.v = mb.rec.phase.v; ma.TP.v = dict(mb.TP.v)
+        elif k == 'V':
+            a, = idx
+            streams[a].vle          # hands out (and caches) the equilibrium object; the stream has 'g' and 'l' already
+        elif k in 'PFCR':
+            a, = idx
+            s, m = streams[a], model[a]
+            if k == 'P':
+                streams.append(s.proxy()); model.append(_M(m.rec, m.TP))
+            elif k == 'F':
+                streams.append(s.flow_proxy()); model.append(_M(_Rec(m.rec.flow, _Cell(m.rec.phase.v)), _Cell(dict(m.TP.v))))
+            else:
+                streams.append(s.copy() if k == 'C' else pickle.loads(pickle.dumps(s)))
+                model.append(_M(_Rec(_Cell(dict(m.rec.flow.v)), _Cell(m.rec.phase.v)), _Cell(dict(m.TP.v))))
+    check('after the history')
+    if flash('call 1', cfg['on'], cfg['spec']):
+        check('after call 1')
+    if cfg['then']:
+        u, j = cfg['then']
+        streams[u].unlink()
+        m = model[u]
+        model[u] = _M(_Rec(_Cell(dict(m.rec.flow.v)), _Cell(m.rec.phase.v)), _Cell(dict(m.TP.v)))
+        check('after unlink')
+        if flash('call 2', j, 'TP'):
+            check('after call 2')
+    w.note(T=[round(s.T, 4) for s in streams], vapor=[round(float(s.imol['g'].sum()), 6) for s in streams])
+    w.canary('canary (not evaluated in mode B): all streams end at the same T', len({round(s.T, 6) for s in streams}) == 1)
